@@ -3,7 +3,7 @@
    - regression: the files that broke the code before the fixes C09_1..4 (cfg_asis) and their clean failure now;
    - non-vacuity: valid files load to the same objects under the three configurations. *)
 From Coq Require Import List ZArith QArith Bool Lia.
-From Gst Require Import C09.Model C09.Readers C09.Spec C09.Witness C09.Proofs_loc C09.Proofs_top.
+From Gst Require Import C09.Model C09.Readers C09.Spec C09.Witness C09.Proofs_loc C09.Proofs_wf C09.Proofs_top.
 Import ListNotations.
 Local Open Scope Z_scope.
 
@@ -11,17 +11,17 @@ Local Open Scope Z_scope.
 Definition asis_env (f : list Z) : env := mkEnv cfg_asis 268435456 (S (length f)).
 Definition now_env_of (f : list Z) : env := mkEnv cfg_now 268435456 (S (length f)).
 Definition fix_env (f : list Z) : env := mkEnv cfg_fixed 268435456 (S (length f)).
-Definition now_env_nocap (f : list Z) : env := mkEnv cfg_now (2 ^ 62) (S (length f)).
 
 (* ---------------------------------------------------------------- the code as it is now *)
 Lemma now_locsize : load_Db (now_env_of w_locsize) w_locsize = Crashed (Throw 1 16).
 Proof. vm_compute. reflexivity. Qed.
-Lemma now_locsize_ghost : alloc_bound (flen w_locsize) < ghost_of (load_Db (now_env_nocap w_locsize) w_locsize).
+(* below the cap the request is served: 400 kB of role list for a 21-byte file *)
+Lemma now_locsize_ghost : alloc_bound (flen w_locghost) < ghost_of (load_Db (now_env_of w_locghost) w_locghost).
 Proof. vm_compute. reflexivity. Qed.
 Lemma now_locrank : exists d g, load_Db (now_env_of w_locrank) w_locrank = Loaded d g /\ ~ wf_db d.
 Proof.
   eexists. eexists. split; [vm_compute; reflexivity|].
-  intros [_ [_ [_ [_ [_ [_ [ND _]]]]]]]. simpl in ND. inversion ND as [|x l H1 H2]; subst. apply H1. left. reflexivity.
+  intros H. apply wf_db_b_spec in H. vm_compute in H. discriminate.
 Qed.
 (* "NA x2": column 0 has no role in the file and holds rank 1 of the coordinates in the object *)
 Lemma now_filler : exists d g, load_Db (now_env_of w_filler) w_filler = Loaded d g /\ nth 0 (d_loc d) [] = [0; 1].
